@@ -426,7 +426,14 @@ def _norm_start(interp, s, start):
 
 def _index_of(interp, s, sub, start):
     st = _norm_start(interp, s, start)
-    r = SymInt(z3.IndexOf(s.term, _s(sub), _i(st)))
+    if interp.assumed.get('str.find') == 'uninterpreted':
+        # opt-in per contract: position of a substring as an uninterpreted function of (s, sub, start) with the range
+        # facts below; enough wherever code and specification are compared through the same find(), and it keeps
+        # z3's sequence solver (unstable, and not always interruptible, on IndexOf) out of the query
+        F = z3.Function('py_find', z3.StringSort(), z3.StringSort(), z3.IntSort(), z3.IntSort())
+        r = SymInt(F(s.term, _s(sub), _i(st)))
+    else:
+        r = SymInt(z3.IndexOf(s.term, _s(sub), _i(st)))
     # facts about IndexOf the sequence solver is slow to find: -1 <= r, and a hit lies inside s, not before start
     n = s.length()
     interp.path.lemma(land(r >= -1, r <= n))
